@@ -17,7 +17,8 @@ RULE = ("IPv4: every prefix length 0..32 x {boundary, random} network addresses;
         "the network range computed on integer ranges; IPv6: every prefix length 0..128 (thorough) / a spread (quick) x "
         "network addresses with zero hextets in every group position x probe addresses with zero runs / single bits in "
         "every host hextet; native CIDR rendering; invalid strings; distinct = distinct CIDR string; non-trivial = "
-        "prefix not a multiple of 8 (v4) / 4 (v6) or a network address with a zero group")
+        "prefix not a multiple of 8 (v4) / 4 (v6) or a network address with a zero group"
+        "; native rendering of other valid spellings (netmask form, exploded/upper-case IPv6, host without prefix); query-level cases: the OR of patterns under AND / NOT for backends with and without in-lists")
 ASSUMPTIONS = [
     "Python's ipaddress parses and normalises the CIDR text (the Lean model re-implements the text forms and is compared on every probe)",
     "IPv4 patterns are of the forms '*', 'a.*', 'a.b.*', 'a.b.c.*', 'a.b.c.d'; any other form is judged by probes only",
